@@ -259,7 +259,7 @@ def verify_lemma(ctx, lem):
     for ob in ctx.obligations[n0:]:
         ob.min_rounds = lem.get('rounds', 2)
     rep = dict(function='lemma:' + lem['name'], hash=None, paths=1, obligations=len(ctx.obligations) - n0,
-               pre_satisfiable=smt.quick_sat(st.pc, 5000), canary_refuted=True, out_of_reach=None)
+               pre_satisfiable=smt.sat_probe(st.pc), canary_refuted=True, out_of_reach=None)
     ctx.fun_reports.append(rep)
     return rep
 
@@ -313,7 +313,7 @@ def verify_function(ctx, relpath, qual, canary=True, struct=None, label=None):
     fr.spec_only = False
     fr.entry = st.fork()
     ctx.entries[relpath + '::' + qual] = fr.entry
-    report['pre_satisfiable'] = smt.quick_sat(st.pc, 5000)
+    report['pre_satisfiable'] = smt.sat_probe(st.pc)
     try:
         outs = eng.run(node.body, st, fr)
     except OutOfReach as e:
@@ -382,7 +382,7 @@ def verify_function(ctx, relpath, qual, canary=True, struct=None, label=None):
     if canary and canary_states:
         ok = False
         for post in canary_states[:4]:
-            r = smt.quick_sat(post.pc, 5000)
+            r = smt.sat_probe(post.pc)
             if r == 'sat':
                 ok = True
                 break
